@@ -90,28 +90,23 @@ theorem refines_step (env : Env) (t : T) (op : Op) (r : R Val) (t' : T)
       simp only [Bool.false_eq_true, if_false] at h
       exact of_sim (sim_chownK hc p cu cg cr ho) h
   case paths p =>
-    obtain ⟨hrt, _⟩ := listOk_facts (env := env) (t := t) ho
-    exact of_sim (sim_listing1 hc hrt p wantAll (fun _ => true) hw_all (fun _ => true) (fun _ _ _ _ _ _ _ => rfl)) h
+    exact of_sim (sim_listing1 hc (listOk_facts ho) p wantAll (fun _ => true) hw_all (fun _ => true)
+      (fun _ _ _ _ _ _ _ => rfl)) h
   case dirs p =>
-    obtain ⟨hrt, hf⟩ := listOk_facts (env := env) (t := t) ho
-    exact of_sim (sim_listing1 hc hrt p wantDirs _ hw_dirs (fun n => decide (n.kind = .dir))
-      (fun a ha k m hm hp hal => wkDirs_nonlink ((hf a ha) rfl k m hm hp hal))) h
+    exact of_sim (sim_listing1 hc (listOk_facts ho) p wantDirs _ hw_dirs (fun n => decide (n.kind = .dir))
+      (fun _ _ _ _ _ _ _ => rfl)) h
   case files p =>
-    obtain ⟨hrt, hf⟩ := listOk_facts (env := env) (t := t) ho
-    exact of_sim (sim_listing1 hc hrt p wantFiles _ hw_files (fun n => decide (n.kind = .file))
-      (fun a ha k m hm hp hal => wkFiles_nonlink ((hf a ha) rfl k m hm hp hal))) h
+    exact of_sim (sim_listing1 hc (listOk_facts ho) p wantFiles _ hw_files (fun n => decide (n.kind = .file))
+      (fun _ _ _ _ _ _ _ => rfl)) h
   case allPaths p =>
-    obtain ⟨hrt, _⟩ := listOk_facts (env := env) (t := t) ho
-    exact of_sim (sim_listingAll hc hrt p wantAll (fun _ => true) hw_all (fun _ => true)
+    exact of_sim (sim_listingAll hc (listOk_facts ho) p wantAll (fun _ => true) hw_all (fun _ => true)
       (fun _ _ _ _ _ _ _ => rfl)) h
   case allDirs p =>
-    obtain ⟨hrt, hf⟩ := listOk_facts (env := env) (t := t) ho
-    exact of_sim (sim_listingAll hc hrt p wantDirs _ hw_dirs (fun n => decide (n.kind = .dir))
-      (fun a ha k m hm hp hal => wkDirs_nonlink ((hf a ha) rfl k m hm hp hal))) h
+    exact of_sim (sim_listingAll hc (listOk_facts ho) p wantDirs _ hw_dirs (fun n => decide (n.kind = .dir))
+      (fun _ _ _ _ _ _ _ => rfl)) h
   case allFiles p =>
-    obtain ⟨hrt, hf⟩ := listOk_facts (env := env) (t := t) ho
-    exact of_sim (sim_listingAll hc hrt p wantFiles _ hw_files (fun n => decide (n.kind = .file))
-      (fun a ha k m hm hp hal => wkFiles_nonlink ((hf a ha) rfl k m hm hp hal))) h
+    exact of_sim (sim_listingAll hc (listOk_facts ho) p wantFiles _ hw_files (fun n => decide (n.kind = .file))
+      (fun _ _ _ _ _ _ _ => rfl)) h
   case moveP a b =>
     refine of_sim (sim_moveP hc a b ?_) h
     intro sa da hsa hda
